@@ -287,7 +287,7 @@ theorem noFault_alignedExit {g : GState} (h : Inv cfg g) :
   split at hf
   · rename_i e he; cases hf; exact noPrepared_err he
   · split at hf
-    · rename_i outer rest hfr
+    · rename_i outer start rest hfr
       have hfo := h.frames
       rw [hfr] at hfo
       simp only [FramesOK] at hfo
@@ -295,7 +295,12 @@ theorem noFault_alignedExit {g : GState} (h : Inv cfg g) :
       · rename_i e he
         obtain ⟨s', hs'⟩ := C10.alignGuardDrop_noFault h.cfgOK h.geom hfo.1
         rw [hs'] at he; cases he
-      · cases hf
+      · rename_i s1 hs1
+        split at hf
+        · rename_i e he
+          obtain ⟨s', hs'⟩ := C10.alignChunkAt_noFault h.cfgOK (C10.alignGuardDrop_inv h.cfgOK h.geom hfo.1 hs1).1 hfo.1 start
+          rw [hs'] at he; cases he
+        · cases hf
     · cases hf
     · cases hf; exact fun hb => hb
 
